@@ -180,6 +180,11 @@ def retry_table(ctx, rule, f):
 def run(ctx):
     _run(ctx)
     _hooks_rule(ctx)
+    _callbacks_rule(ctx)
+    from mstatic.rules import shared
+    r8 = ctx.rule('R8', 'continue-on / break-on see what the attempt has '
+                  'just published', 'AGREE (lookup order)')
+    shared.expression_context_order(ctx, r8)
 
 
 def _run(ctx):
@@ -609,6 +614,42 @@ def _run(ctx):
                      'policy hook does not start with super().%s(task): '
                      'its fields are used unevaluated / unvalidated' % hook,
                      ctx.loc(sf))
+
+
+def _callbacks_rule(ctx):
+    """The scheduler callbacks of the delay policies run once: resume only
+    re-dispatches IDLE tasks and completed-unprocessed tasks, never a
+    DELAYED one.  A callback that returns without acting (e.g. because the
+    workflow is paused at that moment) loses the task and everything
+    behind it."""
+    prog = ctx.prog
+    r7 = ctx.rule('R7', 'the one-shot callbacks of wait-before / wait-after '
+                  '/ retry act unconditionally (a postponed task is never '
+                  'dropped)', 'GD-exact')
+    for fn, call in (('_continue_task', 'continue_task'),
+                     ('_complete_task', 'complete_task')):
+        f = prog.func(POL + '.' + fn)
+        cfg = ctx.cfg(f)
+        sites = U.calls_in(cfg, call)
+        if len(sites) != 1:
+            raise AnalysisError('C08.R7: %s no longer calls %s' % (fn, call))
+        n, c = sites[0]
+        facts = [(norm(a), t) for a, t in U.guard_atoms(cfg, n)]
+        inside = bool(U.inside_with(cfg, n, 'db_api.transaction',
+                                    'transaction'))
+        r7.check(not facts and inside, ctx.construct(f, c),
+                 'the callback acts only under %s: when the condition does '
+                 'not hold at the moment the job fires nothing ever '
+                 'continues / completes the postponed task again'
+                 % facts, ctx.loc(f, c))
+        arg = norm(c.args[0]) if c.args else None
+        ld = [x for x in own_nodes(f.node) if isinstance(x, ast.Assign) and
+              dotted(x.targets[0]) == arg]
+        r7.check(len(ld) == 1 and U.phas(
+            ld[0].value, 'db_api.load_task_execution(%s)' % f.params[0]),
+            ctx.construct(f, extra='the task named by the job'),
+            'the callback does not act on the task execution the job was '
+            'scheduled for', ctx.loc(f))
 
 
 def _hooks_rule(ctx):
